@@ -433,14 +433,12 @@ func (t *Term) write(sb *strings.Builder) {
 		if len(t.Pat) > 0 {
 			sb.WriteString("(! ")
 			t.Args[0].write(sb)
-			sb.WriteString(" :pattern (")
-			for i, p := range t.Pat {
-				if i > 0 {
-					sb.WriteByte(' ')
-				}
+			for _, p := range t.Pat {
+				sb.WriteString(" :pattern (")
 				p.write(sb)
+				sb.WriteString(")")
 			}
-			sb.WriteString("))")
+			sb.WriteString(")")
 		} else {
 			t.Args[0].write(sb)
 		}
